@@ -4,7 +4,8 @@ from contracts.removal import RemoveRecursively, RemoveDataFromGroups, Workspace
 from contracts.histories import ApiHistories, KfRemoveThroughParent
 from contracts.removal import ObjectRemoveChildren as _ORC
 from contracts.copy_wf import CopiesKeepFilesValid
-CONTRACTS = list(_H) + [ParentSet, PropertyGroupAdd, PropertyGroupRemove, RemoveRecursively, RemoveDataFromGroups, WorkspaceRemoveChildren, ApiHistories, KfRemoveThroughParent] + list(_ALLOF) + [_ORC, CopiesKeepFilesValid]
+from contracts.copying import CopyPropertyGroupsSkippedMember
+CONTRACTS = list(_H) + [ParentSet, PropertyGroupAdd, PropertyGroupRemove, RemoveRecursively, RemoveDataFromGroups, WorkspaceRemoveChildren, ApiHistories, KfRemoveThroughParent] + list(_ALLOF) + [_ORC, CopiesKeepFilesValid, CopyPropertyGroupsSkippedMember]
 
 MANIFEST = {
     "category": "proof",
